@@ -19,6 +19,9 @@
                                  of kind tkind (5: text of length 5, 6: annotation with offset, length 2,
                                  others: no text); mode 0 JSON, 1 annotate_from_file, 2 CSV
      (12 ..)                     CBOR length headers rewritten: measured only
+     (13 mode (keys data) (keys data))  one data set defined twice (sub-stores, with_file, merge_json_str,
+                                 merge_json_file, two set objects in one merged file); data = ((id key) ..);
+                                 result (0 ((id key) .. by id) (keys ascending))
    sub-cases: [safety] or [safety; result].
      safety: 0 fine, 1 panic, 2 abort, 3 hang, 4 memory over budget, 5 cpu time over budget,
              6 the loaded store is not sane (a lookup panicked / aborted)
@@ -169,6 +172,34 @@ Definition run_targeted (x : sx) : sx :=
       L [triple (safety_sx o false) (L [A 0]) 0; triple (res_sx o) (res_sx o) 0]
   end.
 
+Fixpoint insert_pair (p : N * N) (l : list (N * N)) : list (N * N) :=
+  match l with
+  | [] => [p]
+  | q :: l' => if fst p <=? fst q then p :: l else q :: insert_pair p l'
+  end.
+Definition sort_pairs (l : list (N * N)) : list (N * N) := fold_right insert_pair [] l.
+Fixpoint insert_n (p : N) (l : list N) : list N :=
+  match l with
+  | [] => [p]
+  | q :: l' => if p <=? q then p :: l else q :: insert_n p l'
+  end.
+Definition sort_ns (l : list N) : list N := fold_right insert_n [] l.
+
+Definition def_of (x : sx) : dsdef :=
+  {| ds_keys := map sx_N (sx_list (sx_nth 0 x));
+     ds_data := map (fun d => (sx_N (sx_nth 0 d), sx_N (sx_nth 1 d))) (sx_list (sx_nth 1 x)) |}.
+Definition def_sx (keys : list N) (data : list (N * N)) : sx :=
+  L [A 0; L (map (fun p => L [of_N (fst p); of_N (snd p)]) (sort_pairs data)); of_Ns (sort_ns keys)].
+
+Definition run_merge (x : sx) : sx :=
+  let a := def_of (sx_nth 2 x) in
+  let b := def_of (sx_nth 3 x) in
+  let m := ds_merge a b in
+  (* specification: the data of a, then those of b whose id a does not have; likewise the keys *)
+  let sdata := ds_data a ++ filter (fun d => negb (has_id (fst d) (ds_data a))) (ds_data b) in
+  let skeys := ds_keys a ++ filter (fun k => negb (has_key k (ds_keys a))) (ds_keys b) in
+  L [triple (L [A 0]) (L [A 0]) 0; triple (def_sx (ds_keys m) (ds_data m)) (def_sx skeys sdata) 0].
+
 Definition run_C19 (x : sx) : sx :=
   match sx_nat (sx_nth 0 x) with
   | 0%nat => L [run_string (sx_nat (sx_nth 1 x)) (str_of (sx_nth 2 x))]
@@ -189,6 +220,7 @@ Definition run_C19 (x : sx) : sx :=
       let parent := match sx_nat (sx_nth 2 x) with 5%nat => Some 5 | 6%nat => Some 2 | _ => None end in
       let o := ann_offset parent (sx_N (sx_nth 3 x)) (sx_N (sx_nth 4 x)) in
       L [triple (safety_sx o false) (L [A 0]) 0; triple (res_sx o) (res_sx o) 0]
+  | 13%nat => run_merge x
   | 9%nat => run_visit (sx_bool (sx_nth 1 x)) 1
                        (map (fun l => map velem_of (sx_list l)) (sx_list (sx_nth 2 x)))
   | _ => L [triple (L [A 0]) (L [A 0]) 0]
